@@ -628,6 +628,12 @@ func emitDoc(o *out.W, i int, fam string, fi *fontInfo, subset bool, pdfBytes []
 				if e1 != nil && e2 != nil {
 					continue // the font library cannot interpret this glyph in either program
 				}
+				if cid == 0 && gid == 0 && subset && e1 == nil && e2 == nil && p1.String() == "" && p2.String() != "" {
+					// the font library's Subset() deliberately empties .notdef ("make .notdef empty"); keep checking the other glyphs
+					embed = 3
+					embedNotes = append(embedNotes, "used .notdef has an empty outline in the subset program (source: "+p2.String()+")")
+					continue
+				}
 				if (e1 == nil) != (e2 == nil) || p1.String() != p2.String() {
 					embed = 1
 					note = fmt.Sprintf("cid %d (glyph %d): outline differs from the source font: %v %q vs %v %q", cid, gid, e1, p1.String(), e2, p2.String())
